@@ -115,6 +115,13 @@ def check_dispatch(ctx):
                     cls = "cache-hit"
                 elif rv[0] == "index" and rv[1] == ("self", "_cache"):
                     cls = "cache-hit"     # try: return self._cache[key]
+            if cls is None and owner.name != "Mapper" and rv[0] == "call" and \
+                    rv[1] in ("Mapper.__call__", "super.__call__"):
+                # an override that hands the object on to the base dispatcher
+                # (itself judged above) with all arguments
+                a = rv[2][1:] if rv[1] == "Mapper.__call__" else rv[2]
+                if a[:1] == (NODE,):
+                    cls = "base-dispatch"
             if cls is None:
                 ctx.ob(tag + ":unrecognised:" + ast.unparse(ps.items[-1][1]),
                        False, loc,
